@@ -9,6 +9,7 @@ use ckb_logger::{self, debug, error, info, warn};
 use ckb_shared::block_status::BlockStatus;
 use ckb_shared::shared::Shared;
 use ckb_stop_handler::new_crossbeam_exit_rx;
+use ckb_store::ChainStore;
 use ckb_types::core::BlockView;
 use ckb_verification::{BlockVerifier, NonContextualBlockTxsVerifier};
 use ckb_verification_traits::Verifier;
@@ -88,6 +89,24 @@ impl ChainService {
             .map(|_| ())
     }
 
+    // The block status is keyed by the block hash. The hash commits to the header only, and the
+    // header commits to the body through `transactions_root`, `proposals_hash` and `extra_hash`.
+    // A failed body check says something about the hash only when the delivered body is the one
+    // the header commits to; otherwise anybody can craft a failing message for the hash of an
+    // honest block. A block which is already stored and verified is never downgraded here.
+    fn failure_is_about_the_hash(&self, block: &BlockView) -> bool {
+        let body_is_committed = block.transactions_root() == block.calc_transactions_root()
+            && block.proposals_hash() == block.calc_proposals_hash()
+            && block.extra_hash() == block.calc_extra_hash().extra_hash();
+        body_is_committed
+            && self
+                .shared
+                .store()
+                .get_block_ext(&block.hash())
+                .and_then(|ext| ext.verified)
+                != Some(true)
+    }
+
     // `self.non_contextual_verify` is very fast.
     fn asynchronous_process_block(&self, lonely_block: LonelyBlock) {
         let block_number = lonely_block.block().number();
@@ -123,8 +142,17 @@ impl ChainService {
                     "block {}-{} verify failed: {:?}",
                     block_number, block_hash, err
                 );
-                self.shared
-                    .insert_block_status(lonely_block.block().hash(), BlockStatus::BLOCK_INVALID);
+                if self.failure_is_about_the_hash(lonely_block.block()) {
+                    self.shared
+                        .insert_block_status(block_hash.clone(), BlockStatus::BLOCK_INVALID);
+                } else {
+                    // A bad message, not an invalid block: only forget that it was received.
+                    self.shared
+                        .block_status_map()
+                        .remove_if(&block_hash, |_, status| {
+                            BlockStatus::BLOCK_RECEIVED.eq(status)
+                        });
+                }
                 lonely_block.execute_callback(Err(err));
                 return;
             }
